@@ -276,8 +276,8 @@ func sizeBucket(n int) string {
 	}
 }
 
-// Source draws a random source from all classes.  maxLen bounds its size.
-func Source(g *prng.Rng, repo string, maxLen int) ([]byte, Class) {
+// DrawSource draws a random source from all classes.  maxLen bounds its size.
+func DrawSource(g *prng.Rng, repo string, maxLen int) ([]byte, Class) {
 	var b []byte
 	var name string
 	switch g.N(12) {
